@@ -232,6 +232,31 @@ impl Glue {
         out
     }
 
+    /// which entries of `nums()` (0 = `Tk?`, i + 1 = declaration i) the value of the last
+    /// declared type contains
+    pub fn reachable(&self) -> Vec<bool> {
+        let mut r = vec![false; self.decls.len() + 1];
+        let mut work = vec![self.decls.len() - 1];
+        while let Some(i) = work.pop() {
+            if r[i + 1] {
+                continue;
+            }
+            r[i + 1] = true;
+            let fields: Vec<GT> = match &self.decls[i] {
+                Decl::Record(fs) => fs.clone(),
+                Decl::Enum(vs) => vs.iter().flatten().copied().collect(),
+            };
+            for f in fields {
+                match f {
+                    GT::Leaf(OptTk) => r[0] = true,
+                    GT::Leaf(_) => {}
+                    GT::User(j) => work.push(j),
+                }
+            }
+        }
+        r
+    }
+
     pub fn describe(&self) -> String {
         self.script().lines().filter(|l| l.starts_with("record") || l.starts_with("enum")).collect::<Vec<_>>().join("; ")
     }
@@ -261,7 +286,7 @@ impl Glue {
                     let mut v: Vec<String> = vs.iter().map(|fs| fs.iter().map(f).collect::<String>()).collect();
                     v.sort();
                     v.dedup();
-                    parts.push(format!("e{}", v.join("|")));
+                    parts.push(format!("e{}", v.join("/")));
                 }
             }
         }
